@@ -35,7 +35,7 @@ func (fr *Frame) alloc(st *State) string {
 	vc := fr.vc
 	cur := vc.stGet0(st, "$alloc")
 	ref := vc.define("ref", "Int", cur)
-	if ref == cur { // keep a stable name
+	if ref == cur && !vc.closed { // keep a stable name
 		ref = vc.fresh("ref", "Int")
 		vc.axiom(fmt.Sprintf("(= %s %s)", ref, cur))
 	}
@@ -719,6 +719,7 @@ func calleeNames(c *ssa.CallCommon) []string {
 	if c.IsInvoke() {
 		recv := c.Value.Type()
 		full := typeName(recv) + "." + c.Method.Name()
+		out = append(out, c.Method.FullName())
 		out = append(out, full)
 		if n, ok := recv.(*types.Named); ok {
 			out = append(out, n.Obj().Name()+"."+c.Method.Name())
